@@ -304,4 +304,264 @@ theorem cust_union (S : Schema) (n : Nat) (hK : ∀ m, m < n → PK S m) (code i
         · intro hf; contradiction
     · contradiction
 
+
+/-! ## Decoder steps used by the hand-written codecs -/
+
+theorem decOpt_succ (S : Schema) (n : Nat) (k : Kind) (tag : Nat) (c : Cur) (w : Option Ver) :
+    decOpt S (n + 1) k tag c w =
+      (if c.tag = tag then decK S n k tag c w else .ok (zeroOf S n k, c, w)) := by rw [decOpt]
+
+/-- `d.Opt` on a pointer field is the pointer decoder itself. -/
+theorem decOpt_ptr_eq (S : Schema) (f : Nat) (k' : Kind) (tag : Nat) (c : Cur) (w : Option Ver) :
+    decOpt S (f + 2) (.ptr k') tag c w = decK S (f + 1) (.ptr k') tag c w := by
+  rw [decOpt_succ]
+  by_cases h : c.tag = tag
+  · rw [if_pos h]
+  · rw [if_neg h]
+    simp only [decK, ne_eq, h, not_false_eq_true, if_true]
+    rw [zeroOf]
+
+theorem decOpt_absent (S : Schema) (f : Nat) (k : Kind) (tag : Nat) (l : List RawItem) (w : Option Ver)
+    (h : htag l ≠ tag) : decOpt S (f + 1) k tag (Cur.of l) w = .ok (zeroOf S f k, Cur.of l, w) := by
+  rw [decOpt_succ, Cur.tag_of, if_neg h]
+
+theorem decOpt_present (S : Schema) (f : Nat) (k : Kind) (tag : Nat) (l : List RawItem) (w : Option Ver)
+    (h : htag l = tag) : decOpt S (f + 1) k tag (Cur.of l) w = decK S f k tag (Cur.of l) w := by
+  rw [decOpt_succ, Cur.tag_of, if_pos h]
+
+theorem decK_enum_raw (S : Schema) (f t tag n : Nat) (rs : List RawItem) (w : Option Ver) (hn : n < 2 ^ 32) :
+    decK S (f + 1) (.enum t) tag (Cur.of ((Item.enum tag n).raw :: rs)) w = .ok (.int n, Cur.of rs, w) := by
+  simp only [decK, Cur.of, Cur.enum_raw tag n rs hn, Res.ok_bind, Res.pure_eq]
+
+theorem decK_text_raw (S : Schema) (f tag : Nat) (s : Bytes) (rs : List RawItem) (w : Option Ver) :
+    decK S (f + 1) .text tag (Cur.of ((Item.text tag s).raw :: rs)) w = .ok (.text s, Cur.of rs, w) := by
+  simp only [decK, Cur.of, Cur.textString_raw tag s rs, Res.ok_bind, Res.pure_eq]
+
+theorem decK_bytes_raw (S : Schema) (f tag : Nat) (s : Bytes) (rs : List RawItem) (w : Option Ver) :
+    decK S (f + 1) .bytes tag (Cur.of ((Item.bytes tag s).raw :: rs)) w
+      = .ok (.bytes (some s), Cur.of rs, w) := by
+  simp only [decK, Cur.of, Cur.byteString_raw tag s rs, Res.ok_bind, Res.pure_eq]
+
+theorem decK_bool_raw (S : Schema) (f tag : Nat) (b : Bool) (rs : List RawItem) (w : Option Ver) :
+    decK S (f + 1) .bool tag (Cur.of ((Item.bool tag b).raw :: rs)) w = .ok (.bool b, Cur.of rs, w) := by
+  simp only [decK, Cur.of, Cur.bool_raw tag b rs, Res.ok_bind, Res.pure_eq]
+
+theorem decK_i32_raw (S : Schema) (f tag : Nat) (x : Int) (rs : List RawItem) (w : Option Ver)
+    (hx : inInt 32 x) :
+    decK S (f + 1) .i32 tag (Cur.of ((Item.int tag x).raw :: rs)) w = .ok (.int x, Cur.of rs, w) := by
+  simp only [decK, Cur.of, Cur.integer_raw tag x rs hx, Res.ok_bind, Res.pure_eq]
+
+theorem isEnum_iff {k : Kind} (h : k.isEnum = true) : ∃ t, k = .enum t := by
+  cases k <;> simp [Kind.isEnum] at h
+  exact ⟨_, rfl⟩
+
+/-! ## RequestBatchItem -/
+
+theorem normCustom_request (S : Schema) (n tag : Nat) (v : Val) (ver : Option Ver) :
+    normCustom S (n + 1) Cust.requestBatchItem tag v ver =
+      (match v with
+        | .struct [.int op, .bytes bid, .iface (some (d, x)), me] =>
+          if isU32 op && d == S.payloadDyn op.toNat false then
+            match normK S n .iface T.requestPayload (.iface (some (d, x))) ver with
+            | none => none
+            | some (pl', ver1) =>
+              match normK S n (.ptr (.struct (msgExtId S))) T.messageExtension me ver1 with
+              | none => none
+              | some (me', ver2) => some (.struct [.int op, .bytes (normBid bid), pl', me'], ver2)
+          else none
+        | _ => none) := by
+  rw [normCustom.eq_def]; rfl
+
+/-- the items the batch-item encoders emit for an optional byte string. -/
+def bidItems (tag : Nat) (v : Val) : List Item :=
+  match v with
+  | .bytes (some b) => if b.isEmpty then [] else [.bytes tag b]
+  | _ => []
+
+theorem encCustom_request (S : Schema) (n tag : Nat) (v : Val) (ver : Option Ver) :
+    encCustom S (n + 1) Cust.requestBatchItem tag v ver = (do
+        let (pl, ver1) ← encK S n .iface T.requestPayload (v.field 2) ver
+        let (me, ver2) ← encK S n (.ptr (.struct (msgExtId S))) T.messageExtension (v.field 3) ver1
+        pure ([.struct tag ([.enum T.operation (v.field 0).asInt.toNat]
+          ++ bidItems T.uniqueBatchItemID (v.field 1) ++ pl ++ me)], ver2)) := by
+  rw [encCustom.eq_def]; rfl
+
+theorem decCustom_request (S : Schema) (n id tag : Nat) (c : Cur) (ver : Option Ver) :
+    decCustom S (n + 1) Cust.requestBatchItem id tag c ver = (do
+      let it ← c.expect 1 tag
+      let c0 ← Cur.start it.val
+      let (v, ver') ← (do
+          let (op, c1, v1) ← decK S n ((S.structDef id).fields.getD 0 fieldDflt).kind T.operation c0 ver
+          let (bid, c2, v2) ← decOpt S n .bytes T.uniqueBatchItemID c1 v1
+          let (pl, c3, v3) ← decDyn S n (S.payloadDyn op.asInt.toNat false) T.requestPayload c2 v2
+          let (me, _, v4) ← decOpt S n ((S.structDef id).fields.getD 3 fieldDflt).kind T.messageExtension c3 v3
+          pure (Val.struct [op, bid, pl, me], v4) : Res (Val × Option Ver))
+      let c' ← c.next
+      pure (v, c', ver')) := by
+  rw [decCustom.eq_def]; rfl
+
+
+theorem bidItems_normBid (tag : Nat) (bid : Option Bytes) :
+    bidItems tag (.bytes (normBid bid)) = bidItems tag (.bytes bid) := by
+  cases bid with
+  | none => rfl
+  | some b =>
+    simp only [normBid]
+    by_cases hb : b.isEmpty = true
+    · simp [hb, bidItems]
+    · simp [hb, bidItems]
+
+theorem normBid_idem (bid : Option Bytes) : normBid (normBid bid) = normBid bid := by
+  cases bid with
+  | none => rfl
+  | some b =>
+    simp only [normBid]
+    by_cases hb : b.isEmpty = true
+    · simp [hb, normBid]
+    · simp [hb, normBid]
+
+theorem bidItems_tags (tag : Nat) (v : Val) : ∀ it ∈ bidItems tag v, it.tag = tag := by
+  intro it hit
+  unfold bidItems at hit
+  split at hit
+  · split at hit
+    · cases hit
+    · rw [List.mem_singleton.1 hit]; rfl
+  · cases hit
+
+/-- `d.Opt(tag, &bytes)` on what the batch-item encoders emit for an optional byte string. -/
+theorem decOpt_bid (S : Schema) (f tagB : Nat) (bid : Option Bytes) (rs : List RawItem) (w : Option Ver)
+    (hne : htag rs ≠ tagB) :
+    decOpt S (f + 2) .bytes tagB (Cur.of ((bidItems tagB (.bytes bid)).map Item.raw ++ rs)) w
+      = .ok (.bytes (normBid bid), Cur.of rs, w) := by
+  have hz : zeroOf S (f + 1) .bytes = .bytes none := by rw [zeroOf]
+  cases bid with
+  | none =>
+    simp only [bidItems, List.map_nil, List.nil_append, normBid]
+    rw [decOpt_absent S (f + 1) .bytes tagB rs w hne, hz]
+  | some b =>
+    by_cases hb : b.isEmpty = true
+    · simp only [bidItems, hb, if_true, List.map_nil, List.nil_append, normBid]
+      rw [decOpt_absent S (f + 1) .bytes tagB rs w hne, hz]
+    · simp only [bidItems, hb, Bool.false_eq_true, if_false, List.map_cons, List.map_nil, List.cons_append,
+        List.nil_append, normBid]
+      rw [decOpt_present S (f + 1) .bytes tagB _ w rfl, decK_bytes_raw]
+
+
+theorem Int.toNat_cast_of_u32 {x : Int} (h : isU32 x = true) : ((x.toNat : Nat) : Int) = x ∧ x.toNat < 2 ^ 32 := by
+  have := (isU32_iff x).1 h
+  constructor
+  · exact Int.toNat_of_nonneg this.1
+  · omega
+
+theorem normK_iface_ok {S : Schema} {n tag d : Nat} {x : Val} {ver : Option Ver} {r : Val × Option Ver}
+    (h : normK S (n + 1) .iface tag (.iface (some (d, x))) ver = some r) :
+    dynValOk (S.dyn d).kind x = true := by
+  rw [normK_iface] at h
+  exact (ite_eq_some h).1
+
+set_option maxHeartbeats 1000000 in
+theorem cust_request (S : Schema) (hU : S.unambiguous = true) (n : Nat) (hK : ∀ m, m < n → PK S m)
+    (id tag : Nat) (v : Val) (ver : Option Ver) (v' : Val) (ver' : Option Ver)
+    (hs0 : ((S.structDef id).fields.getD 0 fieldDflt).kind.isEnum = true)
+    (hs3 : ((S.structDef id).fields.getD 3 fieldDflt).kind = .ptr (.struct (msgExtId S)))
+    (hsd : S.decodable (.ptr (.struct (msgExtId S))) = true)
+    (h : normCustom S n Cust.requestBatchItem tag v ver = some (v', ver')) :
+    CustConcl S n Cust.requestBatchItem id tag v ver v' ver' true := by
+  cases n with
+  | zero => rw [normCustom_zero] at h; contradiction
+  | succ n1 =>
+  rw [normCustom_request] at h
+  split at h
+  · rename_i op bid d x me
+    obtain ⟨hc, h⟩ := ite_eq_some h
+    simp only [Bool.and_eq_true, beq_iff_eq] at hc
+    obtain ⟨hop, hd⟩ := hc
+    have hdb : (d == S.payloadDyn op.toNat false) = true := beq_iff_eq.2 hd
+    cases hpl : normK S n1 .iface T.requestPayload (.iface (some (d, x))) ver with
+    | none => simp only [hpl] at h; contradiction
+    | some p =>
+    obtain ⟨pl', ver1⟩ := p
+    simp only [hpl] at h
+    cases hme : normK S n1 (.ptr (.struct (msgExtId S))) T.messageExtension me ver1 with
+    | none => simp only [hme] at h; contradiction
+    | some q =>
+    obtain ⟨me', ver2⟩ := q
+    simp only [hme] at h
+    obtain ⟨rfl, rfl⟩ := pair_eq (Option.some.inj h)
+    obtain ⟨n2, rfl⟩ : ∃ n2, n1 = n2 + 1 := by
+      cases n1 with
+      | zero => rw [normK_zero] at hpl; contradiction
+      | succ n2 => exact ⟨n2, rfl⟩
+    have hdok := normK_iface_ok hpl
+    obtain ⟨x', plI, rfl, hple, hple', hpln, hplt, hpll, hpld⟩ :=
+      pdyn_succ S n2 (hK n2 (by omega)) _ T.requestPayload x ver pl' ver1 hpl
+    obtain ⟨meI, hmee, hmee', hmen, hmet, _, _, hmed⟩ :=
+      hK (n2 + 1) (by omega) _ T.messageExtension me ver1 me' ver2 hme
+    obtain ⟨hopc, hoplt⟩ := Int.toNat_cast_of_u32 hop
+    refine ⟨[.struct tag ([Item.enum T.operation op.toNat] ++ bidItems T.uniqueBatchItemID (.bytes bid)
+      ++ plI ++ meI)], _, _, rfl, rfl, ?_, ?_, ?_, ?_, rfl, ?_⟩
+    · rw [encCustom_request]
+      simp only [Val.field, List.getD_cons_succ, List.getD_cons_zero, hple, Res.ok_bind, hmee, Res.pure_eq,
+        Val.asInt]
+    · rw [encCustom_request]
+      simp only [Val.field, List.getD_cons_succ, List.getD_cons_zero, hple', Res.ok_bind, hmee', Res.pure_eq,
+        Val.asInt, bidItems_normBid]
+    · rw [normCustom_request]
+      simp only [hop, hdb, Bool.and_self, if_true, hpln, hmen, normBid_idem]
+    · intro x hx; rw [List.mem_singleton.1 hx]; rfl
+    · intro _ hr fd rs hfd
+      have hri := (Item.allInRange_singleton _).1 hr
+      rw [Item.InRange] at hri
+      obtain ⟨_, _, _, hinner⟩ := hri
+      have hin1 := (Item.allInRange_append _ meI).1 hinner
+      have hin2 := (Item.allInRange_append _ plI).1 hin1.1
+      simp only [Val.depth, Val.depthList] at hfd
+      have hmd := Val.depth_pos me
+      obtain ⟨f, rfl, hf⟩ := fuel_succ (by omega : 5 + 1 ≤ fd)
+      obtain ⟨f1, rfl, hf1⟩ := fuel_succ (by omega : 4 + 1 ≤ f)
+      obtain ⟨f2, rfl, hf2⟩ := fuel_succ (by omega : 3 + 1 ≤ f1)
+      rw [decCustom_request]
+      have hexp : (Cur.of ([Item.struct tag ([Item.enum T.operation op.toNat]
+            ++ bidItems T.uniqueBatchItemID (.bytes bid) ++ plI ++ meI)].map Item.raw ++ rs)).expect 1 tag
+          = .ok (Item.struct tag _).raw := Cur.expect_of (.struct tag _) rs
+      have hstart : Cur.start (Item.struct tag ([Item.enum T.operation op.toNat]
+            ++ bidItems T.uniqueBatchItemID (.bytes bid) ++ plI ++ meI)).raw.val
+          = .ok (Cur.of (([Item.enum T.operation op.toNat] ++ bidItems T.uniqueBatchItemID (.bytes bid)
+              ++ plI ++ meI).map Item.raw)) := Cur.start_encList _ hinner
+      have hnext : (Cur.of ([Item.struct tag ([Item.enum T.operation op.toNat]
+            ++ bidItems T.uniqueBatchItemID (.bytes bid) ++ plI ++ meI)].map Item.raw ++ rs)).next
+          = .ok (Cur.of rs) := Cur.next_of _ rs
+      simp only [hexp, Res.ok_bind, hstart]
+      obtain ⟨t, ht⟩ := isEnum_iff hs0
+      -- 1. Operation
+      have hl : ([Item.enum T.operation op.toNat] ++ bidItems T.uniqueBatchItemID (.bytes bid)
+            ++ plI ++ meI).map Item.raw
+          = (Item.enum T.operation op.toNat).raw :: ((bidItems T.uniqueBatchItemID (.bytes bid)).map Item.raw
+              ++ (plI.map Item.raw ++ meI.map Item.raw)) := by
+        simp only [List.map_append, List.map_cons, List.map_nil, List.cons_append, List.nil_append,
+          List.append_assoc]
+      rw [hl, ht, decK_enum_raw S (f2 + 1) t T.operation op.toNat _ ver hoplt]
+      simp only [Res.ok_bind]
+      -- 2. UniqueBatchItemID (optional): the next item is the payload
+      obtain ⟨plIt, rfl⟩ := list_len1 hpll
+      have hplt' : plIt.tag = T.requestPayload := hplt plIt (List.mem_singleton.2 rfl)
+      have hne : htag ([plIt].map Item.raw ++ meI.map Item.raw) ≠ T.uniqueBatchItemID := by
+        rw [htag_single, hplt']; decide
+      rw [decOpt_bid S f2 T.uniqueBatchItemID bid _ ver hne]
+      simp only [Res.ok_bind, Val.asInt, hopc]
+      -- 3. RequestPayload: the type registered for the operation
+      rw [← hd]
+      have hdyn := hpld (unamb_dynOK hU _ x hdok) hin2.2 (f2 + 1 + 1) (meI.map Item.raw) T.requestPayload
+        (Or.inl rfl) (by omega)
+      rw [hdyn]
+      simp only [Res.ok_bind]
+      -- 4. MessageExtension (optional pointer), then the end of the structure
+      rw [hs3, decOpt_ptr_eq]
+      have hmd' := hmed hsd hin1.2 (f2 + 1) [] (by omega) (Or.inr (by decide))
+      rw [List.append_nil] at hmd'
+      rw [hmd']
+      simp only [Res.ok_bind, Res.pure_eq, hnext]
+  · contradiction
+
 end Kmip
